@@ -205,6 +205,24 @@ func runC11(c *core.Ctx) {
 				c.Violate("map|"+tag+"|"+resClass(res), "a loop over a map did not visit each [key, value] pair exactly once with consistent forloop fields",
 					map[string]any{"source": src, "bindings": gen.DescribeEnv(b), "expected_pairs": want, "observed": res.Brief()})
 			}
+			// the caller updates the map in place (same size) and renders again: the loop must show the new values
+			if variant%3 == 0 && n > 0 {
+				var want2 []string
+				for k := range mv {
+					mv[k] = mv[k].(int) + 100
+					want2 = append(want2, fmt.Sprintf("<%s=%d>", k, mv[k]))
+				}
+				sort.Strings(want2)
+				res2 := core.Run(e, "{% for kv in m %}<{{ kv[0] }}={{ kv[1] }}>,{% endfor %}", b)
+				c.Eval(1)
+				c.Obs("map_in_place_update_cases", 1)
+				got2 := strings.Split(strings.TrimSuffix(res2.Out, ","), ",")
+				sort.Strings(got2)
+				if !res2.OK() || strings.Join(got2, ",") != strings.Join(want2, ",") {
+					c.Violate("map|stale-after-in-place-update", "after the caller updated a map in place, a loop over it still visited the old pairs",
+						map[string]any{"expected_pairs": want2, "observed": res2.Brief()})
+				}
+			}
 		}
 	}
 	// ---- negative offset / limit: invariants only -------------------------------------
